@@ -703,16 +703,32 @@ func (c *Client) processPubrec(id packet.ID) error {
 
 // handle an incoming Pubrel packet
 func (c *Client) processPubrel(id packet.ID) error {
+	// ignore a Pubrel packet with an invalid id
+	if !id.Valid() {
+		return nil
+	}
+
 	// get packet from store
 	pkt, err := c.Session.LookupPacket(session.Incoming, id)
 	if err != nil {
 		return c.die(err, true)
 	}
 
+	// prepare pubcomp packet
+	pubcomp := packet.NewPubcomp()
+	pubcomp.ID = id
+
 	// get packet from store
 	publish, ok := pkt.(*packet.Publish)
 	if !ok {
-		return nil // ignore a wrongly sent Pubrel packet
+		// the message has already been released (the Pubcomp may have been
+		// lost), acknowledge again so that the sender can finish the flow
+		err = c.send(pubcomp, true)
+		if err != nil {
+			return c.die(err, false)
+		}
+
+		return nil
 	}
 
 	// call callback
@@ -723,20 +739,17 @@ func (c *Client) processPubrel(id packet.ID) error {
 		}
 	}
 
-	// prepare pubcomp packet
-	pubcomp := packet.NewPubcomp()
-	pubcomp.ID = publish.ID
+	// remove packet from store before acknowledging, otherwise a lost
+	// Pubcomp would lead to a second delivery of the message
+	err = c.Session.DeletePacket(session.Incoming, id)
+	if err != nil {
+		return c.die(err, true)
+	}
 
 	// acknowledge Publish packet
 	err = c.send(pubcomp, true)
 	if err != nil {
 		return c.die(err, false)
-	}
-
-	// remove packet from store
-	err = c.Session.DeletePacket(session.Incoming, id)
-	if err != nil {
-		return c.die(err, true)
 	}
 
 	return nil
